@@ -1409,6 +1409,15 @@ func genFuzz(o *Out, tier string, r *Rng) {
 			if r.Chance(50) {
 				h2 = Pick(r, fuzzHeaders)
 			}
+			if r.Chance(25) {
+				// the same origin in another letter case / another key on a second header line: a different origin for the
+				// receiver, which must answer with an error, not index a map it never made (seeded change C18-r8m1)
+				h1 = Pick(r, []string{`X-Matrix origin="example.org",key="ed25519:1",sig="AAAA",destination="x"`, `X-Matrix origin="a",key="ed25519:1",sig="x",destination="x"`, `X-Matrix origin="hs1:8448",key="ed25519:a",sig="AAAA"`})
+				h2 = strings.NewReplacer(`origin="example.org"`, `origin="Example.ORG"`, `origin="a"`, `origin="A"`, `origin="hs1:8448"`, `origin="HS1:8448"`, `key="ed25519:1"`, `key="ed25519:2"`).Replace(h1)
+				if r.Bool() {
+					h1, h2 = h2, h1
+				}
+			}
 			if r.Chance(30) {
 				h1 = string(r.Malform([]byte(h1)))
 			}
